@@ -395,6 +395,9 @@ class Gen:
             if want_int and c[0] == "r":
                 return ["i", self.i(-3, 5)]
             return c
+        if self.p.rational_divisors and not want_int and self.p.division and self.b(0.2):
+            # a non-integer constant divisor: x / (1/2) must not be read as (x / 1) / 2
+            return ["/", self.num_expr(scope, depth - 1), ["r", self.pick(["1/2", "5/2", "-1/2", "1/4", "-3/4"])]]
         if k < 6:
             return ["+", self.num_expr(scope, depth - 1, want_int), self.num_expr(scope, depth - 1, want_int)]
         if k < 8:
